@@ -72,6 +72,8 @@ def build(tier, seed):
              bd_task("end_to_end", "A exported, B built against it through a relative local path: modules.json lists exactly A's modules and public entities with URLs that exist; every "
                      "link of B into A (use, extends, [[..]], call graph) exists there and is the page of the linked name; B's own module / type / procedure win name clashes", "1 project pair"),
              bd_task("broken", "missing, non-JSON, truncated, binary, mis-shaped external descriptions: B's run succeeds and writes its own pages", f"{len(c16.BROKEN)} descriptions"),
+             bd_task("declarations", "B declares a deferred binding through an abstract interface of A and extends a type of A with bindings, under every `sort` option: B's run "
+                     "succeeds and its links into A exist", "6 sort options"),
              bd_task("absolute", "external project given by an absolute local path", "1 project pair"),
              bd_task("remote", "remote external project (urlopen replaced): modules.json fetched from <url>/modules.json and every entity URL is <url>/<relative URL in A>", "4 spellings of the URL")]
     meta = {
